@@ -88,6 +88,9 @@ class BaseVariantRaw(HierarchyElementRaw):
             if not isinstance(dv_proxy, OdxLinkRef):
                 result.update(dv_proxy._build_odxlinks())
 
+        for variable_group in self.variable_groups:
+            result[variable_group.odx_id] = variable_group
+
         if self.dyn_defined_spec is not None:
             result.update(self.dyn_defined_spec._build_odxlinks())
 
